@@ -97,6 +97,35 @@ func memAccess(m interface{}, write bool) {
 	memAccessLabel("mem:"+Cur.valLabel(m), write)
 }
 
+// DeepRead: v is about to be serialised by reflection (encoding/json): a read of every map held
+// in an exported field of the struct v (points to), one level deep. Returns v.
+func DeepRead[T any](v T) T {
+	if !RaceMode || Cur == nil {
+		return v
+	}
+	rv := reflect.ValueOf(v)
+	for rv.Kind() == reflect.Ptr || rv.Kind() == reflect.Interface {
+		if rv.IsNil() {
+			return v
+		}
+		rv = rv.Elem()
+	}
+	if rv.Kind() == reflect.Map {
+		memAccess(rv.Interface(), false)
+		return v
+	}
+	if rv.Kind() != reflect.Struct {
+		return v
+	}
+	for i := 0; i < rv.NumField(); i++ {
+		f := rv.Field(i)
+		if f.Kind() == reflect.Map && !f.IsNil() && rv.Type().Field(i).IsExported() {
+			memAccess(f.Interface(), false)
+		}
+	}
+	return v
+}
+
 // R / W: explicit read / write of the location p points to (field accesses).
 func R(p interface{}) { memAccess(p, false) }
 func W(p interface{}) { memAccess(p, true) }
